@@ -59,10 +59,16 @@ pub fn gen(rng: &mut Prng, plan: &mut Plan) {
     for _ in 0..n {
         let (v, neg) = special_value(rng);
         let route = rng.below(8) as i128;
+        if rng.chance(1, 30) {
+            // medium byte strings (one to a few cache lines / vector blocks) as a window at every address residue
+            let len = rng.range(41, 300);
+            plan.steps.push(Step::new("big_bytes").i("len", len as i128).i("seed", rng.next_u32() as i128).i("kind", rng.below(8) as i128).i("neg", neg as i128).i("off", rng.below(16) as i128));
+            continue;
+        }
         if rng.chance(1, 60) {
             // long byte strings (beyond any internal block size) of every residue mod 8
             let len = *rng.pick(&[1025u64, 4097, 8190, 16_383, 16_385, 16_391, 20_003, 32_769, 40_005, 65_537]) + rng.below(9);
-            plan.steps.push(Step::new("big_bytes").i("len", len as i128).i("seed", rng.next_u32() as i128).i("kind", rng.below(8) as i128).i("neg", neg as i128));
+            plan.steps.push(Step::new("big_bytes").i("len", len as i128).i("seed", rng.next_u32() as i128).i("kind", rng.below(8) as i128).i("neg", neg as i128).i("off", rng.below(16) as i128));
             continue;
         }
         let s = match rng.below(10) {
@@ -95,7 +101,7 @@ pub fn gen(rng: &mut Prng, plan: &mut Plan) {
                     }
                     _ => {}
                 }
-                Step::new("import_bytes").l("b", b).i("kind", rng.below(10) as i128).i("neg", neg as i128)
+                Step::new("import_bytes").l("b", b).i("kind", rng.below(10) as i128).i("neg", neg as i128).i("off", rng.below(16) as i128)
             }
             _ => {
                 // arbitrary delivered u32 words into a live register
@@ -114,10 +120,32 @@ pub fn gen(rng: &mut Prng, plan: &mut Plan) {
                     .l32("w", &w)
                     .i("kind", rng.below(7) as i128)
                     .i("sg", *rng.pick(&[-1i128, 0, 1]))
-                    .i("stale", rng.below(60) as i128)
+                    .i("stale", if rng.chance(1, 40) { *rng.pick(&[70_000i128, 131_080, 140_001, 300_000]) } else { rng.below(60) as i128 })
+                    .i("off", rng.below(4) as i128)
             }
         };
         plan.steps.push(s);
+    }
+}
+
+/// The caller's memory layout is part of the environment: a copy of `bytes` inside a larger buffer whose first byte
+/// sits at address = `off` (mod 16), with non-zero bytes on both sides (a window into a receive buffer).
+struct Placed {
+    buf: Vec<u8>,
+    at: usize,
+    len: usize,
+}
+
+impl Placed {
+    fn new(bytes: &[u8], off: usize) -> Placed {
+        let mut buf = vec![0xa5u8; bytes.len() + 48];
+        let base = buf.as_ptr() as usize;
+        let at = 16 + ((off % 16) + 16 - (base + 16) % 16) % 16;
+        buf[at..at + bytes.len()].copy_from_slice(bytes);
+        Placed { buf, at, len: bytes.len() }
+    }
+    fn get(&self) -> &[u8] {
+        &self.buf[self.at..self.at + self.len]
     }
 }
 
@@ -343,6 +371,12 @@ pub fn exec(plan: &Plan) -> RunResult {
                 let sg = s.int("neg") != 0;
                 let rev: Vec<u8> = b.iter().rev().copied().collect();
                 let model = RefNat::from_bytes_le(&b);
+                let off = s.us("off");
+                let (pb, prev) = (Placed::new(&b, off), Placed::new(&rev, off));
+                let (b, rev) = (pb.get(), prev.get());
+                if off % 8 != 0 {
+                    res.fault("layout.unaligned_slice");
+                }
                 let names = ["BigUint::from_bytes_le", "BigUint::from_bytes_be", "BigInt::from_signed_bytes_le", "BigInt::from_signed_bytes_be", "BigInt::from_bytes_le", "BigInt::from_bytes_be", "BigUint::FromBytes", "BigInt::FromBytes"];
                 let api = names[(kind as usize).min(7)];
                 let r = catch(|| -> (RefInt, Option<String>, bool) {
@@ -386,7 +420,13 @@ pub fn exec(plan: &Plan) -> RunResult {
                 let names = ["BigUint::from_bytes_le", "BigUint::from_bytes_be", "BigInt::from_signed_bytes_le", "BigInt::from_signed_bytes_be", "BigInt::from_bytes_le", "BigInt::from_bytes_be", "BigUint::FromBytes", "BigInt::FromBytes", "BigUint::FromBytes::from_ne_bytes", "BigInt::FromBytes::from_ne_bytes"];
                 let api = names[(kind as usize).min(9)];
                 let rev: Vec<u8> = b.iter().rev().copied().collect();
-                let ne: &[u8] = if cfg!(target_endian = "little") { &b } else { &rev };
+                let off = s.us("off");
+                let (pb, prev) = (Placed::new(&b, off), Placed::new(&rev, off));
+                let (b, rev) = (pb.get(), prev.get());
+                if off % 8 != 0 {
+                    res.fault("layout.unaligned_slice");
+                }
+                let ne: &[u8] = if cfg!(target_endian = "little") { b } else { rev };
                 let r = catch(|| -> (RefInt, Option<String>) {
                     match kind {
                         8 => { let x = <BigUint as num_traits::FromBytes>::from_ne_bytes(ne); (RefInt::new(false, denote_u(&x)), noncanonical_u(&x)) }
@@ -429,26 +469,38 @@ pub fn exec(plan: &Plan) -> RunResult {
                 let kind = s.int("kind");
                 let sgn = sign_of(s.int("sg"));
                 let stale = s.us("stale");
+                // the words as a window at a chosen u32 offset inside a larger buffer (8-byte aligned or not)
+                let woff = s.us("off") % 4;
+                let mut wbuf = vec![0x5a5a_5a5au32; w.len() + 12];
+                let wat = 4 + (woff + 4 - ((wbuf.as_ptr() as usize / 4) + 4) % 4) % 4;
+                wbuf[wat..wat + w.len()].copy_from_slice(&w);
+                let win: &[u32] = &wbuf[wat..wat + w.len()];
+                if woff % 2 != 0 {
+                    res.fault("layout.unaligned_slice");
+                }
+                if stale > 65_536 {
+                    res.fault("history.huge_stale_capacity");
+                }
                 let names = ["BigUint::new", "BigUint::from_slice", "BigUint::assign_from_slice", "BigInt::new", "BigInt::from_slice", "BigInt::assign_from_slice", "BigUint::assign_from_slice"];
                 let api = names[(kind as usize).min(6)];
                 let r = catch(|| -> (RefInt, Option<String>) {
                     match kind {
                         0 => { let x = BigUint::new(w.clone()); (RefInt::new(false, denote_u(&x)), noncanonical_u(&x)) }
-                        1 => { let x = BigUint::from_slice(&w); (RefInt::new(false, denote_u(&x)), noncanonical_u(&x)) }
+                        1 => { let x = BigUint::from_slice(win); (RefInt::new(false, denote_u(&x)), noncanonical_u(&x)) }
                         2 | 6 => {
                             let mut x = BigUint::new(vec![0xffff_ffff; stale]);
                             if kind == 6 {
                                 x <<= 64u32;
                                 x >>= 70u32;
                             }
-                            x.assign_from_slice(&w);
+                            x.assign_from_slice(win);
                             (RefInt::new(false, denote_u(&x)), noncanonical_u(&x))
                         }
                         3 => { let x = BigInt::new(sgn, w.clone()); (denote_i(&x), noncanonical_i(&x)) }
-                        4 => { let x = BigInt::from_slice(sgn, &w); (denote_i(&x), noncanonical_i(&x)) }
+                        4 => { let x = BigInt::from_slice(sgn, win); (denote_i(&x), noncanonical_i(&x)) }
                         _ => {
                             let mut x = BigInt::new(Sign::Minus, vec![0xffff_ffff; stale]);
-                            x.assign_from_slice(sgn, &w);
+                            x.assign_from_slice(sgn, win);
                             (denote_i(&x), noncanonical_i(&x))
                         }
                     }
@@ -477,7 +529,7 @@ pub fn exec(plan: &Plan) -> RunResult {
                 }
                 dg.u32s(&got.mag.0);
                 res.nontrivial = true;
-                res.cover.insert(fnv(format!("iw|{kind}|{}|{}|{:?}|{}", w.len().min(12), w.last() == Some(&0), sgn, stale > w.len() * 4).as_bytes()));
+                res.cover.insert(fnv(format!("iw|{kind}|{}|{}|{:?}|{}", w.len().min(12), w.last() == Some(&0), sgn, if stale > 65_536 { 2 } else { (stale > w.len() * 4) as u8 }).as_bytes()));
             }
             other => {
                 res.violate(P, "harness", other, si, "unknown op".into());
